@@ -3302,7 +3302,8 @@ impl Block {
             // validate double-spend inputs
             if valid_tx && tx.transaction_type != TransactionType::Fee {
                 for input in tx.from.iter() {
-                    if input.amount == 0 || input.slip_type == SlipType::Bound {
+                    // (a Bound slip with an amount is an entry of the ledger like any other)
+                    if input.amount == 0 {
                         continue;
                     }
                     let utxo_key = input.get_utxoset_key();
